@@ -112,7 +112,12 @@ where
                     break self.client_shutdown(id).await;
                 }
 
-                Selected::Transport(Ok(msg)) => self.send_broker_msg(id.clone(), msg).await?,
+                Selected::Transport(Ok(msg)) => {
+                    // If the broker has shut down in the meantime, then its `Shutdown` message is
+                    // still queued in `recv`. Drop the client's message and let the next iterations
+                    // shut the connection down cleanly (or fail if the broker is gone unexpectedly).
+                    let _ = self.send_broker_msg(id.clone(), msg).await;
+                }
 
                 Selected::TransportFlushed(Ok(())) => self.flush_transport = false,
 
